@@ -1,4 +1,4 @@
-import GrassProofs.Lemmas.SerializeTree
+import GrassProofs.Lemmas.SerializeRead
 /-
   C06 — Output style changes only formatting, never meaning or evaluation.
 
@@ -38,5 +38,35 @@ example : (visitStmt .compressed 0 (.comment ['/', '*', ' ', 'x', ' ', '*', '/']
 theorem C06_eval_style_free {Src : Type} (eval : Src → List Stmt) (src : Src) (cs : Bool) :
     ∀ st : Style, ∃ t, t = eval src ∧ serialize st cs t = serialize st cs (eval src) :=
   fun _ => ⟨eval src, rfl, rfl⟩
+
+/-- Full statement of the model-level style equivalence (kept visible; not proved in general):
+    reading back both serialisations of ANY guarded tree gives the same canonical rule list, for a
+    reader that is a left inverse of the printer.  `CssRead` (`readCss`) so far covers
+    declaration-only trees, for which this is proved below. -/
+def C06_style_equiv_model_full : Prop :=
+  ∃ (Rules : Type) (read : Str → Option Rules) (canon : List Stmt → Rules),
+    ∀ (t : List Stmt), treeOk .expanded t = true → treeOk .compressed t = true →
+      read (serialize .compressed false t) = some (canon t) ∧
+      read (serialize .expanded false t) = some (canon t)
+
+/-- PARTIAL (declaration-only trees: a list of style rules, each with one compound selector and
+    declarations whose names and values are single CSS words — `SRule.ok`): the reader `readCss`
+    returns exactly the rule list of the tree from BOTH serialisations (print → read round trip),
+    so expanded and compressed output describe the same rules, declarations and values.
+    Missing for the full statement: at-rules, comments, selector lists / combinators, quoted strings
+    and lists in values (the reader does not parse them yet). -/
+theorem C06_style_equiv_model_partial (t : List SRule) (h : t.all SRule.ok = true) :
+    readCss (serialize .compressed false (t.map SRule.toStmt)) =
+      readCss (serialize .expanded false (t.map SRule.toStmt)) ∧
+    readCss (serialize .expanded false (t.map SRule.toStmt)) = some (rulesOf t) := by
+  rw [readCss_serialize .compressed t h, readCss_serialize .expanded t h]
+  exact ⟨rfl, rfl⟩
+
+example : ([⟨['a'], [(['b'], ['c']), (['d'], ['e'])]⟩, ⟨['x'], []⟩] : List SRule).all SRule.ok = true := by
+  decide +kernel
+
+example : readCss (serialize .expanded false
+    (([⟨['a'], [(['b'], ['c']), (['d'], ['e'])]⟩, ⟨['x'], []⟩] : List SRule).map SRule.toStmt)) =
+    some [(['a'], [(['b'], ['c']), (['d'], ['e'])])] := by decide +kernel
 
 end Grass.Serialize
